@@ -80,6 +80,10 @@ RECURSIVE FoldSeq(_, _, _)
 FoldSeq(Op(_, _), acc, s) ==
     IF s = <<>> THEN acc ELSE Then(Op(acc, Head(s)), LAMBDA a : FoldSeq(Op, a, Tail(s)))
 
+\* some fixed enumeration of a set (the order of records inside a message when it is not observed)
+RECURSIVE SeqOf(_)
+SeqOf(S) == IF S = {} THEN <<>> ELSE LET x == CHOOSE y \in S : TRUE IN <<x>> \o SeqOf(S \ {x})
+
 RECURSIVE FoldSet(_, _, _)
 FoldSet(Op(_, _), acc, S) ==
     IF S = {} THEN acc
@@ -378,7 +382,8 @@ ReplicateFor(srv, scl, f) ==
         mt1 == [e \in (DOMAIN mt0) \cup bumped |-> IF e \in bumped THEN f ELSE mt0[e]]
         maps == SeqToSet(scl.pendingMap)
         nonEmpty == maps # {} \/ DOMAIN d.desp # {} \/ DOMAIN rems # {} \/ chgEnts # {}
-        upd == [tick |-> srv.tick, maps |-> maps, desp |-> d.desp, rems |-> rems, chg |-> chg]
+        upd == [tick |-> srv.tick, maps |-> maps, desp |-> d.desp, rems |-> rems, chg |-> chg,
+                rord |-> SeqOf(DOMAIN rems), ord |-> SeqOf(DOMAIN chg)]   \* record order on the wire: any
     IN [scl |-> [scl EXCEPT !.vis = vis, !.mutTick = mt1, !.pendingMap = <<>>,
                             !.updTick = IF nonEmpty THEN srv.tick ELSE @],
         upd |-> IF nonEmpty THEN <<upd>> ELSE <<>>,
@@ -413,7 +418,8 @@ Replicate(st, f, parts, extraGraphs) ==
                         [upd |-> R[c].scl.updTick, tick |-> srv.tick,
                          cnt |-> IF Track THEN Len(part[c]) ELSE -1,
                          idx |-> (srv.cl[c].nextIdx + i - 1) % 65536,
-                         ents |-> Restrict(R[c].muts, part[c][i] \cap DOMAIN R[c].muts)]]]
+                         ents |-> Restrict(R[c].muts, part[c][i] \cap DOMAIN R[c].muts),
+                         ord |-> SeqOf(part[c][i] \cap DOMAIN R[c].muts)]]]
         newCl == [c \in Client |->
             IF ~srv.cl[c].auth THEN srv.cl[c]
             ELSE [R[c].scl EXCEPT
@@ -542,29 +548,31 @@ Placeholder == [alive |-> TRUE, marker |-> FALSE, comps |-> EmptyFn, hist |-> -1
 WithRefs(ents, new) ==
     IF REL \in DOMAIN new /\ new[REL] \notin DOMAIN ents THEN With(ents, new[REL], Placeholder) ELSE ents
 
-\* a record for a mapped entity that is dead on the client cannot be applied (as found, F17; the model
-\* skips the record)
+\* A record for a mapped entity that is dead on the client cannot be applied: the client logs an error and
+\* drops the rest of the message (this only happens once a mapped entity died behind the protocol's back:
+\* F17, or game logic despawning a replicated entity).  Records are applied in wire order.
 DeadMapped(ents, e) == e \in DOMAIN ents /\ ~ents[e].alive
 
-ApplyRemovals(cs, m) ==
-    LET one(ents, e) ==
-            IF DeadMapped(ents, e) THEN ents ELSE
+\* [ents, ok]
+ApplyRecords(ents0, ord, One(_, _)) ==
+    FoldSeq(LAMBDA acc, e : IF ~acc.ok THEN acc
+                            ELSE IF DeadMapped(acc.ents, e) THEN [acc EXCEPT !.ok = FALSE]
+                            ELSE [acc EXCEPT !.ents = One(@, e)],
+            [ents |-> ents0, ok |-> TRUE], ord)
+
+ApplyUpdate(cs, m) ==
+    LET oneRem(ents, e) ==
             LET e1 == TouchEnt(ents, e, m.tick)
             IN [e1 EXCEPT ![e].comps = WithoutAll(@, m.rems[e])]
-    IN [cs EXCEPT !.ents = FoldSet(one, @, DOMAIN m.rems)]
-
-ApplyChanges(cs, m) ==
-    LET one(ents, e) ==
-            IF DeadMapped(ents, e) THEN ents ELSE
+        oneChg(ents, e) ==
             LET new == m.chg[e]
                 e1 == TouchEnt(WithRefs(ents, new), e, m.tick)
             IN [e1 EXCEPT ![e].comps = [k \in (DOMAIN @) \cup (DOMAIN new) |->
                                            IF k \in DOMAIN new THEN new[k] ELSE @[k]]]
-    IN [cs EXCEPT !.ents = FoldSet(one, @, DOMAIN m.chg)]
-
-ApplyUpdate(cs, m) ==
-    Then(ApplyDespawns(ApplyMappings([cs EXCEPT !.updTick = m.tick], m), m), LAMBDA c1 :
-    Then(ApplyRemovals(c1, m), LAMBDA c2 : ApplyChanges(c2, m)))
+    IN Then(ApplyDespawns(ApplyMappings([cs EXCEPT !.updTick = m.tick], m), m), LAMBDA c1 :
+       Then(ApplyRecords(c1.ents, m.rord, oneRem), LAMBDA r1 :
+       Then(IF r1.ok THEN ApplyRecords(r1.ents, m.ord, oneChg) ELSE r1, LAMBDA r2 :
+            [c1 EXCEPT !.ents = r2.ents])))
 
 \* BufferedMutations::insert keeps the buffer sorted by message tick, newest first;
 \* a new message goes before older-or-equal ones
@@ -572,33 +580,34 @@ BufInsert(buf, b) ==
     LET n == Cardinality({i \in 1..Len(buf) : b.tick < buf[i].tick})
     IN SubSeq(buf, 1, n) \o <<b>> \o SubSeq(buf, n + 1, Len(buf))
 
-ToBuf(m) == [upd |-> m.upd, tick |-> m.tick, cnt |-> m.cnt, ents |-> m.ents, idx |-> m.idx]
+ToBuf(m) == [upd |-> m.upd, tick |-> m.tick, cnt |-> m.cnt, ents |-> m.ents, idx |-> m.idx, ord |-> m.ord]
 
-\* apply one buffered mutate message to the entities it names
+\* apply one buffered mutate message, entity by entity in wire order: [ents, ok, outdated]
+\*   unknown entity: skipped;  dead or without history: error, the rest of the message is dropped;
+\*   not newer than what the entity has: discarded for this entity
 ApplyMutate(ents, b) ==
-    LET one(es, e) ==
-            IF e \notin DOMAIN es THEN es                       \* unknown entity: skipped
-            ELSE IF es[e].hist < 0 THEN es                       \* no history yet: error, skipped
+    LET one(acc, e) ==
+            LET es == acc.ents IN
+            IF ~acc.ok \/ e \notin DOMAIN es THEN acc
+            ELSE IF ~es[e].alive \/ es[e].hist < 0 THEN [acc EXCEPT !.ok = FALSE]
             ELSE IF b.tick > es[e].hist
-                 THEN [WithRefs(es, b.ents[e]) EXCEPT ![e].hist = b.tick,
+                 THEN [acc EXCEPT !.ents = [WithRefs(es, b.ents[e]) EXCEPT ![e].hist = b.tick,
                                  ![e].comps = [k \in (DOMAIN @) \cup (DOMAIN b.ents[e]) |->
-                                                  IF k \in DOMAIN b.ents[e] THEN b.ents[e][k] ELSE @[k]]]
-                 ELSE es                                         \* outdated for this entity
-    IN FoldSet(one, ents, DOMAIN b.ents)
-
-\* data of b for a known entity is discarded (outdated) or cannot be applied (no history yet)
-Rejected(ents, b) ==
-    \E e \in DOMAIN b.ents : e \in DOMAIN ents /\ (ents[e].hist < 0 \/ b.tick <= ents[e].hist)
+                                                  IF k \in DOMAIN b.ents[e] THEN b.ents[e][k] ELSE @[k]]]]
+                 ELSE [acc EXCEPT !.outdated = TRUE]
+    IN FoldSeq(one, [ents |-> ents, ok |-> TRUE, outdated |-> FALSE], b.ord)
 
 \* processes the buffer newest first; `done` = processed messages, `acked` = those acknowledged
 ApplyMutates(cs) ==
     LET ready(b) == b.upd <= cs.updTick
         step(acc, b) ==
             IF ready(b)
-            THEN [acc EXCEPT !.ents = ApplyMutate(@, b), !.done = Append(@, b),
+            THEN Then(ApplyMutate(acc.ents, b), LAMBDA r :
+                 [acc EXCEPT !.ents = r.ents, !.done = Append(@, b),
                              !.mt = IF Track THEN With(@, b.tick, Get(@, b.tick, 0) + 1) ELSE @,
                              !.notif = IF Track /\ Get(acc.mt, b.tick, 0) + 1 = b.cnt THEN Append(@, b.tick) ELSE @,
-                             !.acked = IF Impl.ackDiscarded \/ ~Rejected(acc.ents, b) THEN Append(@, b.idx) ELSE @]
+                             \* only a message that was applied completely is acknowledged (unless F19)
+                             !.acked = IF Impl.ackDiscarded \/ (r.ok /\ ~r.outdated) THEN Append(@, b.idx) ELSE @])
             ELSE [acc EXCEPT !.keep = Append(@, b)]
         r == FoldSeq(step, [ents |-> cs.ents, keep |-> <<>>, done |-> <<>>, acked |-> <<>>, mt |-> cs.mt, notif |-> <<>>], cs.buf)
     IN [cs |-> [cs EXCEPT !.ents = r.ents, !.buf = r.keep, !.mt = r.mt, !.notif = r.notif], done |-> r.done, acked |-> r.acked]
@@ -693,7 +702,9 @@ StopF(st) ==
     [st EXCEPT !.srv.running = FALSE,
                !.net = [c \in Client |-> NetInit],
                !.cli = [c \in Client |-> ClientDrop(@[c])]]
-StopEnabled(st) == st.srv.running
+\* environment assumption: the running flag changes at most once per server frame (a backend sets it in
+\* its own systems); replicon detects the change by comparing with the previous frame's value
+StopEnabled(st) == st.srv.running /\ st.srv.wasRunning
 
 StartF(st) == [st EXCEPT !.srv.running = TRUE]
 StartEnabled(st) == ~st.srv.running /\ ~st.srv.wasRunning      \* at least one frame ran since the stop
